@@ -33,13 +33,29 @@ func GenCfg(t *rapid.T, kind string) Cfg {
 var jsonSnippets = []string{
 	`[]`, `{}`, `null`, `[1,2,3]`, `[3,1,2,1]`, `{"1":2,"3":4}`, `{"1":1,"2":1}`, `[1,"x",3]`, `{"a":1}`, `[null,null]`,
 	`{"1":null}`, `[1,2`, `{"1":`, ``, ` `, `7`, `"s"`, `[[1]]`, `{"1":{"2":3}}`, `[1e400]`, `[1.5]`, `{"01":1,"1":2}`,
+	`[1e5]`, `[-0]`, `[1.0]`, `{"-0":1,"+1":2}`, "\xef\xbb\xbf[1]", `[1,2,3,4,5,6,7,8,9,10,11,12,13,14,15,16,17,18,19,20,21,22,23,24,25,26,27,28,29,30,31,32,33,34,35,36,37,38,39,40]`,
+	`{"1":1,"2":2,"3":3,"4":4,"5":5,"6":6,"7":7,"8":8,"9":9,"10":10,"11":11,"12":12,"13":13,"14":14,"15":15,"16":16,"17":17,"18":18,"19":19,"20":20}`,
+	`[9223372036854775807,-9223372036854775808]`, `[9223372036854775808]`, `{"9223372036854775808":1}`,
 	`[9,8,7,6,5,4,3,2,1,0]`, `{"5":5,"4":4,"3":3,"2":2,"1":1,"0":0}`, `tru`, `[1,]`, `{"1":1,}`, "[1]\x00", `{"1":1}{"2":2}`,
 }
 
 // GenBytes draws a byte string for []byte parameters: JSON aimed at the
 // containers, mutated JSON, or raw bytes.
 func GenBytes(t *rapid.T) []byte {
-	switch dom.Weighted(t, "bytes", 70, 15, 15) {
+	switch dom.Weighted(t, "bytes", 70, 15, 15, 3) {
+	case 3: // structurally extreme documents: very long arrays, very deep nesting
+		n := []int{300, 1000, 10001, 20000}[rapid.IntRange(0, 3).Draw(t, "extreme")]
+		if rapid.Bool().Draw(t, "deep") {
+			return append(bytesRepeat('[', n), bytesRepeat(']', n)...)
+		}
+		b := []byte{'['}
+		for i := 0; i < n && i < 300; i++ {
+			if i > 0 {
+				b = append(b, ',')
+			}
+			b = append(b, byte('0'+i%10))
+		}
+		return append(b, ']')
 	case 0:
 		return []byte(jsonSnippets[rapid.IntRange(0, len(jsonSnippets)-1).Draw(t, "snippet")])
 	case 1:
@@ -128,4 +144,12 @@ func GenStepsFor(t *rapid.T, kind string, methods []string, chunks, maxPerChunk 
 		out = append(out, rapid.SliceOfN(step, 0, maxPerChunk).Draw(t, "steps")...)
 	}
 	return out
+}
+
+func bytesRepeat(c byte, n int) []byte {
+	b := make([]byte, n)
+	for i := range b {
+		b[i] = c
+	}
+	return b
 }
